@@ -461,5 +461,47 @@ pub fn run_c07(a: &Args) {
         cases.push(case_of(&o, why, format!("lat{}:{}:{}", ((l1 + l2 + l3) / 16_000).min(9), match (bad_at, timeout_at) { (None, _) => "all-echoed".to_string(), (Some(_), Some(_)) => format!("{bad_kind:?}-timeout"), (Some(_), None) => format!("{bad_kind:?}-routed-first") }, reach(&o))));
     }
     cases.extend(crate::byterun::cancelled_keepalive_cases(&mut rng, (a.cases / 40).clamp(8, 400)));
+    // a stalled process: the clock jumps over two or more keep-alive instants at once; a client that then echoes every
+    // Keep Alive at once is not dropped, gets one Keep Alive per period again and its Transfer when routing completes
+    for k in 0..(a.cases / 40).clamp(6, 200) {
+        let mut plan = gen_plan(&mut rng);
+        plan.intent = *rng.pick(&[2, 3]);
+        plan.session_cookie = None;
+        let secret = if k % 2 == 0 { Some(b"s".to_vec()) } else { None };
+        let mut v = gen_verdicts(&mut rng, &plan);
+        v.auth = Ok(gen_profile(&mut rng, &plan.claimed_name, plan.claimed_uuid));
+        let nt = v.targets.len();
+        v.discover = Ok((0..nt).collect()); v.filter = Ok((0..nt).collect());
+        v.select = if nt > 0 { Ok(Some(rng.below(nt as u64) as usize)) } else { Ok(None) };
+        v.loc_fail = false;
+        plan.pre_info = vec![]; plan.routing = vec![];
+        let mut steps: Vec<Step> = render(&plan, secret.is_some());
+        let before = *rng.pick(&[1_000u64, 10_000, 15_000, 17_000]);
+        let stall = *rng.pick(&[33_000u64, 40_000, 70_000]);
+        steps.push(Step::Wait(before));
+        if before > 16_000 { steps.push(Step::KeepAlive(Echo::Last)); }
+        steps.push(Step::Stall(stall));
+        steps.push(Step::KeepAlive(Echo::Last));
+        // up to the next keep-alive instant and a little beyond it, echo, then let routing complete
+        let woke = before + stall;
+        steps.push(Step::Wait(16_000 * (woke / 16_000 + 1) - woke + 150));
+        steps.push(Step::KeepAlive(Echo::Last));
+        steps.push(Step::Wait(1_037));
+        for _ in 0..3 { steps.push(Step::AdapterDone); steps.push(Step::Wait(200)); }
+        let sc = scenario(&mut rng, &plan, secret.clone(), steps, v);
+        let o = exec(&sc);
+        let mut why = vec![];
+        if o.result == "err:missed-keep-alive" { why.push(format!("after a stall of {stall} ms the client echoed every Keep Alive at once, yet it was dropped for inactivity")); }
+        let ss = oracle::sends(&o);
+        let kas = ss.iter().filter(|p| matches!(p, P::KeepAlive(_))).count();
+        let want_kas = if before > 16_000 { 3 } else { 2 };
+        if kas != want_kas { why.push(format!("{kas} Keep Alives around the stall, {want_kas} were due (one per period, none in a burst)")); }
+        match (&sc.verdicts.select, ss.last()) {
+            (Ok(Some(i)), Some(P::Transfer { host, port })) => { let t = &sc.verdicts.targets[*i]; if host != t.address.ip().to_string().as_bytes() || *port != i32::from(t.address.port()) { why.push("wrong Transfer after the stall".into()); } }
+            (Ok(Some(_)), other) => why.push(format!("routing completed with a choice after the stall, but the run ended with {:?} / {}", other.map(|p| p.canonical().chars().take(30).collect::<String>()), o.result)),
+            _ => {}
+        }
+        cases.push(case_of(&o, why, format!("stall:{}:{}", stall / 16_000, reach(&o))));
+    }
     finish("c07", a, cases);
 }
